@@ -13,6 +13,32 @@ Proof.
   destruct (m_pgn m =? n) eqn:E; [apply Z.eqb_eq in E; contradiction|reflexivity].
 Qed.
 
+Lemma weak_guard_run args m n : m_pgn m <> n -> forall p st, ps_ret st = None -> weak_guard p n = true ->
+  ps_ret (exec_p args m p st) = Some false.
+Proof.
+  intros Hn. induction p; intros st Hr H; cbn [weak_guard] in H; try discriminate.
+  destruct p1; try discriminate.
+  - destruct e; try discriminate. cbn [exec_p]. rewrite Hr. apply IHp2; [|exact H]. cbn [ps_ret flag_ub add_out]. exact Hr.
+  - destruct d; try discriminate. cbn [exec_p]. rewrite Hr. apply IHp2; [|exact H]. cbn [ps_ret add_out]. exact Hr.
+  - destruct c; try discriminate. destruct c1; try discriminate. destruct c2; try discriminate.
+    destruct p1_1; try discriminate. destruct e; try discriminate. destruct z0; try discriminate. destruct p1_2; try discriminate.
+    apply Z.eqb_eq in H. subst z.
+    assert (E: ps_ret (exec_p args m (PIf (ENe EPgn (EConst n)) (PRet (EConst 0)) PSkip) st) = Some false).
+    { cbn [exec_p]. rewrite Hr. cbn [ieval iub orb e_pgn penv].
+      replace (m_pgn m =? n) with false by (symmetry; apply Z.eqb_neq; exact Hn). cbn [negb b2z Z.eqb exec_p ps_ret flag_ub].
+      rewrite Hr. cbn [ieval iub ps_ret flag_ub set_ret Z.eqb negb]. reflexivity. }
+    cbn [exec_p]. rewrite Hr. cbn [exec_p] in E. rewrite Hr in E.
+    destruct p2; cbn [exec_p]; rewrite E; exact E.
+Qed.
+
+Theorem guard_weak_sound : guard_weak_sound_stmt.
+Proof.
+  intros p n H args m Hm. unfold guard_check_weak in H. unfold exec_parse.
+  destruct (p_guard p) as [k|].
+  - apply Z.eqb_eq in H. subst k. destruct (m_pgn m =? n) eqn:E; [apply Z.eqb_eq in E; contradiction|reflexivity].
+  - cbn [r_ret]. rewrite (weak_guard_run args m n Hm (p_body p) pst0 eq_refl H). reflexivity.
+Qed.
+
 (* ================================================================ locality *)
 Lemma firstn_skipn_agree {A} : forall (i a N:nat) (l l':list A),
   firstn N l = firstn N l' -> (i + a <= N)%nat -> firstn a (skipn i l) = firstn a (skipn i l').
@@ -367,6 +393,12 @@ Section Bits.
           rewrite (NZ i); [reflexivity|]. now rewrite Hi.
         * rewrite Z0; [reflexivity|]. intros i. destruct (Each i) as [Q|Q]; rewrite Q; [reflexivity|exact Vc].
   Qed.
+  Lemma av_to_const_sound v z a : av_to_const v = Some z -> represents beta v a -> a = z.
+  Proof.
+    unfold av_to_const. destruct (forallb bt_is_const (sgn v :: bits v)); [|discriminate].
+    set (c := fold_right _ _ _). destruct (av_eqb (av_const c) v) eqn:E; [|discriminate]. intros H R. inversion H; subst z.
+    symmetry. apply (rep_inj (av_const c) v c a E (rep_const c) R).
+  Qed.
 End Bits.
 
 (* ================================================================ soundness of the symbolic evaluation of integer expressions *)
@@ -379,6 +411,17 @@ Section AbsSound.
 
   Ltac ob H := let x := fresh "x" in let E := fresh "E" in
     match type of H with obind ?o _ = Some _ => destruct o as [x|] eqn:E; [cbn [obind] in H|discriminate H] end.
+
+  Ltac cst H IH1 IH2 :=
+    let x1 := fresh "x" in let x2 := fresh "x" in let c1 := fresh "c" in let c2 := fresh "c" in
+    let E1 := fresh "E" in let E2 := fresh "E" in let C1 := fresh "C" in let C2 := fresh "C" in
+    let R1 := fresh "R" in let R2 := fresh "R" in let U1 := fresh "U" in let U2 := fresh "U" in
+    unfold cst2 in H;
+    match type of H with match ?o1 with _ => _ end = _ => destruct o1 as [x1|] eqn:E1; [|discriminate H] end;
+    match type of H with match ?o2 with _ => _ end = _ => destruct o2 as [x2|] eqn:E2; [|discriminate H] end;
+    destruct (av_to_const x1) as [c1|] eqn:C1; [|discriminate H]; destruct (av_to_const x2) as [c2|] eqn:C2; [|discriminate H];
+    inversion H; subst; destruct (IH1 _ eq_refl) as [R1 U1]; destruct (IH2 _ eq_refl) as [R2 U2];
+    rewrite (av_to_const_sound beta _ _ _ C1 R1), (av_to_const_sound beta _ _ _ C2 R2), U1, U2; split; [apply rep_const|reflexivity].
 
   Lemma abs_sound e : forall v, abs g e = Some v -> represents beta v (ieval rho e) /\ iub rho e = false.
   Proof.
@@ -395,6 +438,7 @@ Section AbsSound.
     - destruct (0 <=? k) eqn:K; [|discriminate]. apply Z.leb_le in K.
       destruct (abs g e) as [x|] eqn:E; [|discriminate]. inversion H; subst. destruct (IHe _ eq_refl) as [R U].
       split; [now apply rep_shr|exact U].
+    - cst H IHe1 IHe2. - cst H IHe1 IHe2. - cst H IHe1 IHe2.
     - destruct (abs g e) as [x|] eqn:E; [|discriminate]. inversion H; subst. destruct (IHe _ eq_refl) as [R U].
       split; [now apply rep_not|exact U].
     - destruct (0 <? w) eqn:K; [|discriminate]. apply Z.ltb_lt in K.
@@ -421,6 +465,7 @@ Section AbsSound.
       destruct (ieval rho e1 =? ieval rho e2) eqn:Q.
       + apply Z.eqb_eq in Q. rewrite Q, Z.lxor_nilpotent. reflexivity.
       + apply Z.eqb_neq. intros C. apply Z.lxor_eq in C. apply Z.eqb_neq in Q. contradiction.
+    - cst H IHe1 IHe2. - cst H IHe1 IHe2.
     - (* ECond *) ob H. ob H. ob H. ob H.
       destruct (IHe1 _ eq_refl) as [R1 U1], (IHe2 _ eq_refl) as [R2 U2], (IHe3 _ eq_refl) as [R3 U3].
       assert (C := rep_nonzero beta x _ x0 E0 R1).
@@ -640,8 +685,10 @@ Section ParserSim.
   Variable pargs : list argval.
   Variable m : msg.
   Variable ap : list abyte.
+  Variable pa : nat -> option Z.
   Hypothesis Hdata : Forall2 (byte_rel beta rho) ap (m_data m).
   Hypothesis Hlen : m_len m = zlen (m_data m).
+  Hypothesis Hpa : forall a z, pa a = Some z -> arg_int pargs a = z.
 
   Definition slot_rel (a:aslot) (v:option argval) : Prop :=
     match a with
@@ -794,11 +841,25 @@ Section ParserSim.
   Proof. intros (A & B & C & D & E & F). repeat split; try assumption. cbn [ps_unsup flag_unsup]. rewrite D. reflexivity. Qed.
 
   Lemma slot_env_sound x st : st_rel x st ->
-    forall k v, ae_slot (slot_env (a_slots x)) k = Some v -> represents beta v (slot_int (e_slots (penv pargs m st)) k).
+    forall k v, ae_slot (run_env pa (a_slots x)) k = Some v -> represents beta v (slot_int (e_slots (penv pargs m st)) k).
   Proof.
-    intros (A & B & C & D & E & F) k v. cbn [ae_slot slot_env].
+    intros (A & B & C & D & E & F) k v. cbn [ae_slot run_env].
     destruct (alookup k (a_slots x)) as [[w| |]|] eqn:Q; try discriminate. intros H; inversion H; subst.
     destruct (E _ _ Q) as [z [L R]]. cbn [e_slots penv]. unfold slot_int. rewrite L. exact R.
+  Qed.
+
+  Lemma arg_env_sound_p sl st : forall a v, ae_arg (run_env pa sl) a = Some v -> represents beta v (arg_int (e_args (penv pargs m st)) a).
+  Proof.
+    intros a v. cbn [ae_arg run_env e_args penv]. destruct (pa a) as [z|] eqn:Q; [|discriminate]. intros H; inversion H; subst.
+    rewrite (Hpa _ _ Q). apply rep_const.
+  Qed.
+
+  Lemma const_of_sound x st e z : st_rel x st -> const_of (run_env pa (a_slots x)) e = Some z ->
+    ieval (penv pargs m st) e = z /\ iub (penv pargs m st) e = false.
+  Proof.
+    intros R H. unfold const_of in H. destruct (abs (run_env pa (a_slots x)) e) as [v|] eqn:E; [cbn [obind] in H|discriminate].
+    destruct (abs_sound beta (run_env pa (a_slots x)) (penv pargs m st) (arg_env_sound_p _ st) (slot_env_sound x st R) e v E) as [Rv U].
+    split; [exact (av_to_const_sound beta v z _ H Rv)|exact U].
   Qed.
 
   Lemma rel_ret x st b : st_rel x st -> st_rel (aset_ret b x) (set_ret b st).
@@ -811,13 +872,13 @@ Section ParserSim.
     destruct (Nat.eqb j k'); [intros Q; inversion Q; subst; exact I|apply F].
   Qed.
 
-  Lemma arun_sim p : forall x x' st, arun ap p x = Some x' -> st_rel x st -> st_rel x' (exec_p pargs m p st).
+  Lemma arun_sim p : forall x x' st, arun pa ap p x = Some x' -> st_rel x st -> st_rel x' (exec_p pargs m p st).
   Proof.
     induction p; intros x x' st H R; assert (R' := R); destruct R' as (RI & RR & RU & RS & RSl & RO);
       cbn [arun] in H; cbn [exec_p]; rewrite RR; destruct (a_ret x) eqn:AR;
       try (inversion H; subst; exact R).
     - (* PSeq *)
-      destruct (arun ap p1 x) as [x1|] eqn:E1; [cbn [obind] in H|discriminate].
+      destruct (arun pa ap p1 x) as [x1|] eqn:E1; [cbn [obind] in H|discriminate].
       apply (IHp2 x1 x' _ H). apply (IHp1 x x1 st E1 R).
     - (* PRead *)
       destruct r.
@@ -843,12 +904,14 @@ Section ParserSim.
         * apply rel_noflag, rel_idx, rel_bind; [apply rel_bind; [exact R|exact I]|exact I].
         * rewrite Fit. apply rel_noflag, rel_idx, rel_bind; [apply rel_bind; [exact R|exact I]|exact I].
       + discriminate.
-    - (* PSetIdx *) destruct e; try discriminate. inversion H; subst x'. cbn [iub ieval]. apply rel_noflag, rel_idx, R.
-    - (* PAddIdx *) destruct e; try discriminate. inversion H; subst x'. cbn [iub ieval]. rewrite RI. apply rel_noflag, rel_idx, R.
+    - (* PSetIdx *) destruct (const_of (run_env pa (a_slots x)) e) as [z|] eqn:C; [|discriminate]. inversion H; subst x'.
+      destruct (const_of_sound x st e z R C) as [V U]. rewrite V, U. apply rel_noflag, rel_idx, R.
+    - (* PAddIdx *) destruct (const_of (run_env pa (a_slots x)) e) as [z|] eqn:C; [|discriminate]. inversion H; subst x'.
+      destruct (const_of_sound x st e z R C) as [V U]. rewrite V, U, RI. apply rel_noflag, rel_idx, R.
     - (* POutI *)
-      destruct (abs (slot_env (a_slots x)) e) as [v|] eqn:E; [|discriminate]. inversion H; subst x'; clear H.
-      destruct (abs_sound beta (slot_env (a_slots x)) (penv pargs m st)) with (e := e) (v := v) as [Rv U].
-      * intros a y Q. discriminate Q.
+      destruct (abs (run_env pa (a_slots x)) e) as [v|] eqn:E; [|discriminate]. inversion H; subst x'; clear H.
+      destruct (abs_sound beta (run_env pa (a_slots x)) (penv pargs m st)) with (e := e) (v := v) as [Rv U].
+      * apply arg_env_sound_p.
       * apply slot_env_sound, R.
       * exact E.
       * rewrite U. apply rel_noflag, rel_out; [exact R|]. eexists; split; [reflexivity|exact Rv].
@@ -859,25 +922,42 @@ Section ParserSim.
     - (* POutT *)
       inversion H; subst x'. destruct (lookup k (ps_slots st)) as [[| | |t]|]; try (apply rel_out_skip, R). apply rel_out; [exact R|exact I].
     - (* PIf *)
-      destruct p1; try discriminate. destruct e; try discriminate. destruct z; try discriminate. destruct p2; try discriminate.
-      destruct (len_check ap c) as [b|] eqn:LC.
-      { destruct b; [|discriminate]. inversion H; subst x'; clear H.
+      destruct (const_of (run_env pa (a_slots x)) c) as [z|] eqn:C.
+      + destruct (const_of_sound x st c z R C) as [V U]. rewrite V, U.
+        destruct (z =? 0); [apply (IHp2 x x' _ H)|apply (IHp1 x x' _ H)]; apply rel_noflag, R.
+      + destruct p1; try discriminate. destruct e; try discriminate. destruct z; try discriminate. destruct p2; try discriminate.
+        destruct (len_check ap c) as [b|] eqn:LC; [|discriminate]. destruct b; [|discriminate]. inversion H; subst x'; clear H.
         unfold len_check in LC. destruct c; try discriminate. destruct c1; try discriminate. destruct c2; try discriminate.
         inversion LC as [LC']. apply Z.leb_le in LC'. cbn [iub ieval orb e_len penv]. rewrite Hlen. unfold zlen.
         rewrite <- (Forall2_len _ _ _ Hdata).
         replace (Z.of_nat (length ap) <? z) with false by (symmetry; apply Z.ltb_ge; exact LC'). cbn [b2z Z.eqb exec_p].
-        destruct (ps_ret (flag_ub false st)); apply rel_noflag, R. }
-      destruct (abs (slot_env (a_slots x)) c) as [v|] eqn:E; [|discriminate].
-      destruct (is_zero_av v) eqn:Zv; [|discriminate]. inversion H; subst x'; clear H.
-      destruct (abs_sound beta (slot_env (a_slots x)) (penv pargs m st)) with (e := c) (v := v) as [Rv U].
-      * intros a y Q. discriminate Q.
-      * apply slot_env_sound, R.
-      * exact E.
-      * rewrite U. rewrite (zero_av_val beta v _ Zv Rv). cbn [Z.eqb exec_p].
         destruct (ps_ret (flag_ub false st)); apply rel_noflag, R.
-    - (* PRet *) destruct e; try discriminate. inversion H; subst x'. cbn [iub ieval]. apply rel_noflag, rel_ret, R.
+    - (* PRet *) destruct (const_of (run_env pa (a_slots x)) e) as [z|] eqn:C; [|discriminate]. inversion H; subst x'.
+      destruct (const_of_sound x st e z R C) as [V U]. rewrite V, U. apply rel_noflag, rel_ret, R.
   Qed.
 End ParserSim.
+
+(* ================================================================ running a parser on a payload with a known symbolic description *)
+Lemma parse_run_sound beta rho pargs pa ap p data n0 prio dest garbage x' :
+  Forall2 (byte_rel beta rho) ap data -> p_guard p = Some n0 ->
+  (forall a z, pa a = Some z -> arg_int pargs a = z) ->
+  arun pa ap (p_body p) ast0 = Some x' ->
+  let r := exec_parse p pargs {| m_pgn := n0; m_prio := prio; m_dest := dest; m_len := zlen data; m_data := data ++ garbage |} in
+  r_ub r = false /\ r_unsup r = false /\ (forall b, a_ret x' = Some b -> r_ret r = b) /\
+  forall j s, alookup j (a_outs x') = Some s -> slot_rel beta rho s (out_of r j).
+Proof.
+  intros RD G Hpa AR.
+  set (msg := {| m_pgn := n0; m_prio := prio; m_dest := dest; m_len := zlen data; m_data := data |}).
+  assert (LG: exec_parse p pargs {| m_pgn := n0; m_prio := prio; m_dest := dest; m_len := zlen data; m_data := data ++ garbage |} = exec_parse p pargs msg).
+  { apply locality; try reflexivity. cbn [m_len m_data msg]. unfold zlen. rewrite Nat2Z.id.
+    rewrite firstn_app, firstn_all, Nat.sub_diag. cbn [firstn]. now rewrite app_nil_r. }
+  cbv zeta. rewrite LG. unfold exec_parse. rewrite G. cbn [m_pgn msg]. rewrite Z.eqb_refl.
+  assert (S0: st_rel beta rho ast0 pst0) by (repeat split; try reflexivity; intros k t Q; discriminate Q).
+  destruct (arun_sim beta rho pargs msg ap pa RD eq_refl Hpa (p_body p) ast0 x' pst0 AR S0) as (SI & SR & SU & SS & SSl & SO).
+  cbn [r_ret r_ub r_unsup r_outs out_of]. split; [exact SU|]. split; [exact SS|]. split.
+  - intros b Hb. rewrite SR, Hb. reflexivity.
+  - intros j s Hs. unfold out_of. cbn [r_outs]. apply SO. exact Hs.
+Qed.
 
 (* ================================================================ the round trip theorem *)
 Lemma sequence_in {A} : forall (l:list (option A)) r x, sequence l = Some r -> In x r -> In (Some x) l.
@@ -908,7 +988,7 @@ Proof.
   unfold rt_run in RR. destruct (p_guard p) as [n|] eqn:G; [|discriminate].
   destruct (n =? s_pgn s) eqn:Pn; [|discriminate]. apply Z.eqb_eq in Pn.
   destruct (aset (arg_env gamma) (s_body s) []) as [ap0|] eqn:AS; [cbn [obind] in RR|discriminate].
-  destruct (arun ap0 (p_body p) ast0) as [x0|] eqn:AR; [|discriminate]. inversion RR; subst ap0 x0; clear RR.
+  destruct (arun no_pargs ap0 (p_body p) ast0) as [x0|] eqn:AR; [|discriminate]. inversion RR; subst ap0 x0; clear RR.
   set (beta := fun a => arg_int sargs a). set (rho := set_env s sargs).
   assert (Harg: forall a x, ae_arg (arg_env gamma) a = Some x -> represents beta x (arg_int (e_args rho) a)).
   { intros a x. cbn [ae_arg arg_env]. destruct (nth_error gamma a) as [[w sg| |]|] eqn:Ga; try discriminate.
@@ -928,7 +1008,8 @@ Proof.
   cbv zeta. rewrite LG. unfold exec_parse. rewrite G. cbn [m_pgn msg]. rewrite <- Pn, Z.eqb_refl.
   assert (S0: st_rel beta rho ast0 pst0).
   { repeat split; try reflexivity; intros k t Q; discriminate Q. }
-  assert (SIM := arun_sim beta rho pargs msg ap RD eq_refl (p_body p) ast0 x' pst0 AR S0).
+  assert (NP: forall a z, no_pargs a = Some z -> arg_int pargs a = z) by (intros a z Q; discriminate Q).
+  assert (SIM := arun_sim beta rho pargs msg ap no_pargs RD eq_refl NP (p_body p) ast0 x' pst0 AR S0).
   destruct SIM as (SI & SR & SU & SS & SSl & SO).
   cbn [r_ret r_ub r_unsup]. rewrite SR, SU, SS.
   destruct (a_ret x') as [[|]|]; try discriminate. repeat split; try reflexivity.
@@ -1151,6 +1232,7 @@ Proof.
 Qed.
 
 Print Assumptions guard_sound.
+Print Assumptions guard_weak_sound.
 Print Assumptions locality.
 Print Assumptions roundtrip_sound.
 Print Assumptions scaled_rt_spec.
